@@ -416,7 +416,7 @@ Proof. split; reflexivity. Qed.
 Ltac mvsame := left; split; [reflexivity | cbn; lia].
 Lemma run_input_mv_rel f now s i : mv_rel f s (outcome_state (run_input f now s i) s).
 Proof.
-  destruct i as [ps ts ref md amd force | id force at_eff | [a|id] md | [a|id] k]; simpl.
+  destruct i as [ps ts ref md amd force | id force at_eff rmeta | [a|id] md | [a|id] k]; simpl.
   - destruct ps as [|p ps']; [mvsame|].
     destruct (feasible force (s_vols s) (p :: ps')); simpl; [|mvsame].
     destruct (commit_transaction f now s (p :: ps') md ts ref) as [s1 [t|]] eqn:E; simpl.
